@@ -202,7 +202,18 @@ class C13(Property):
                    'tools/harness/c13.py (from the property text, not from chempy tables) are the specification',
                    'outside the modelled domain, excluded from generation: non-ASCII digits, blanks / "_" inside the charge number',
                    're (digit-run substitution, brace escaping) and str.replace are hand-modelled and tied by this correspondence only',
-                   'reaction printing: int and Fraction coefficients are modelled (float coefficients: oracle only), no parameter, no name, no inactive groups (C12 covers those)')
+                   'reaction printing: int and Fraction coefficients and inactive groups are modelled (float coefficients: oracle only), no parameter, no name (C12 covers those)',
+                   'the two inverse presentation maps (Python, for the oracle; Lean unX, specification) are only compared on real outputs for input text over ASCII + the middle dot; on input that already contains sub/superscript code points or markup (H²O) they differ and are unspecified')
+    clauses_without_theorem = (
+        'printed reactions with parameter / name (with_param, with_name) in the three formats: not modelled in C13 (the str printer\'s parameter text is C12/C20)',
+        'float coefficients in printed reactions (str(0.5)): oracle only; int and Fraction coefficients have the theorem reaction_print_spec',
+        'suffixes= / phases outside the vocabulary (s) (l) (g) (aq) (e.g. "(cr)", custom strings) and a written suffix that phases + (aq) does not list: '
+        'kept-verbatim and phase index decided by correspondence (ops fmt, species) only',
+        'LaTeX / Unicode / HTML output for text outside the C01 grammar (mutated strings, rejections): correspondence only',
+        'freshly created Substance / Species objects share no mutable state with earlier ones and are unaffected by earlier keyword arguments or in-place edits '
+        '(operation histories): oracle only — the Lean model is a pure function, aliasing is not expressible in it',
+        'that the harness\'s Python inverse maps equal the Lean unLatex/unUnicode/unHtml: compared on real outputs only',
+    )
     anchors = (('chempy/util/parsing.py', '_formula_to_format'), ('chempy/util/parsing.py', '_subs'),
                ('chempy/util/parsing.py', 'formula_to_latex'), ('chempy/util/parsing.py', 'formula_to_unicode'),
                ('chempy/util/parsing.py', 'formula_to_html'), ('chempy/util/parsing.py', '_formula_to_parts'),
@@ -252,9 +263,35 @@ class C13(Property):
             elif r < 0.84:
                 sfx = rng.choice([[], ['(s)'], ['(aq)', '(g)'], ['(cr)'], ['(s)', '(l)', '(g)', '(aq)', '(cr)']])
                 cases.append({'op': 'fmt', 'which': rng.choice(FORMATS), 's': s, 'suffixes': sfx})
-            else:
+            elif r < 0.93:
                 cases.append(self._reaction_case(rng))
+            else:
+                cases.append(self._history_case(rng))
         return cases
+
+    def _history_case(self, rng):
+        """operation history over Substance/Species.from_formula: constructions with keyword arguments and in-place edits of earlier instances,
+        then fresh constructions from the same strings"""
+        pool = []
+        while len(pool) < rng.randint(1, 3):
+            f = fg.gen_formula(rng, max_depth=rng.randint(0, 2))
+            if fg.render(f) not in [fg.render(g) for g in pool]:
+                pool.append(f)
+        steps = []
+        for _ in range(rng.randint(2, 8)):
+            if rng.random() < 0.6 or not steps:
+                i = rng.randrange(len(pool))
+                kw = {}
+                r = rng.random()
+                if r < 0.35 and pool[i]['charge'] is None:
+                    kw['charge'] = rng.choice([1, 2, 3, -1, -2])
+                elif r < 0.55:
+                    kw['data'] = {rng.choice(['mass', 'pKa', 'x']): rng.randint(1, 99)}
+                steps.append({'do': 'make', 'cls': rng.choice(['Substance', 'Species']), 'i': i, 'kw': kw})
+            else:
+                steps.append({'do': 'edit', 'j': rng.randrange(64), 'what': rng.choice(['comp_set', 'comp_set', 'comp_del', 'comp_clear', 'data_set']),
+                              'k': rng.choice([0, 1, 6, 8, 26]), 'v': rng.randint(-3, 9)})
+        return {'op': 'history', 'pool': pool, 'steps': steps}
 
     def _species_case(self, rng, f):
         r = rng.random()
@@ -286,8 +323,19 @@ class C13(Property):
         reac = [[k, coef()] for k in keys[:nre]]
         prod = [[k, coef()] for k in keys[nre:]]
         known = [k for k in keys if rng.random() < 0.85]
-        return {'op': 'reaction', 'printer': rng.choice(['str', 'latex', 'unicode', 'html']), 'eq': rng.random() < 0.4,
-                'substances': known, 'reac': reac, 'prod': prod}
+        c = {'op': 'reaction', 'printer': rng.choice(['str', 'latex', 'unicode', 'html']), 'eq': rng.random() < 0.4,
+             'substances': known, 'reac': reac, 'prod': prod}
+        if rng.random() < 0.3:                                  # inactive groups ` + ( … )`
+            extra = []
+            while len(extra) < rng.randint(1, 3):
+                k = fg.render(fg.gen_formula(rng, max_depth=1, plain=rng.random() < 0.5))
+                if k not in keys + extra:
+                    extra.append(k)
+            cut = rng.randint(0, len(extra))
+            c['inact_reac'] = [[k, coef()] for k in extra[:cut]]
+            c['inact_prod'] = [[k, coef()] for k in extra[cut:]]
+            c['substances'] = known + [k for k in extra if rng.random() < 0.85]
+        return c
 
     # ------------------------------------------------------------------ correspondence
     @staticmethod
@@ -301,7 +349,9 @@ class C13(Property):
     def _rxn(self, c):
         from chempy import Reaction, Equilibrium, Substance
         Cls = Equilibrium if c['eq'] else Reaction
-        rxn = Cls(dict((k, self._coef(v)) for k, v in c['reac']), dict((k, self._coef(v)) for k, v in c['prod']), checks=())
+        rxn = Cls(dict((k, self._coef(v)) for k, v in c['reac']), dict((k, self._coef(v)) for k, v in c['prod']),
+                  inact_reac=dict((k, self._coef(v)) for k, v in c.get('inact_reac', [])),
+                  inact_prod=dict((k, self._coef(v)) for k, v in c.get('inact_prod', [])), checks=())
         subst = {k: Substance.from_formula(k) for k in c['substances']}
         return rxn, subst
 
@@ -311,11 +361,15 @@ class C13(Property):
             return {'op': 'ast', 'ast': c['ast']}
         if op == 'species':
             return {'op': 'species', 's': c['s'], 'phases': c['phases'], 'default': c['default']}
+        if op == 'history':
+            return None                    # stateful: oracle only (the model is a pure function; `substance` / `species` cover single calls)
         if op == 'reaction':
-            if any(isinstance(v, dict) for _, v in c['reac'] + c['prod']):
+            if any(isinstance(v, dict) for _, v in c['reac'] + c['prod'] + c.get('inact_reac', []) + c.get('inact_prod', [])):
                 return None                # float coefficients: oracle only
             rxn, _ = self._rxn(c)          # the model prints the STORED order (the constructor sorts plain dicts by key)
-            return dict(c, reac=[[k, rat_json(v)] for k, v in rxn.reac.items()], prod=[[k, rat_json(v)] for k, v in rxn.prod.items()])
+            return dict(c, reac=[[k, rat_json(v)] for k, v in rxn.reac.items()], prod=[[k, rat_json(v)] for k, v in rxn.prod.items()],
+                        inact_reac=[[k, rat_json(v)] for k, v in rxn.inact_reac.items()],
+                        inact_prod=[[k, rat_json(v)] for k, v in rxn.inact_prod.items()])
         return c
 
     def _three(self, s):
@@ -372,6 +426,95 @@ class C13(Property):
             return self._oracle_species(c)
         if op == 'reaction':
             return self._oracle_reaction(c)
+        if op == 'history':
+            return self._oracle_history(c)
+        return None
+
+    def _oracle_history(self, c):
+        """after every step a fresh from_formula(s) carries exactly the names / composition / phase index of the AST and shares no mutable
+        state with any earlier instance"""
+        from chempy import Substance, Species
+        pool = c['pool']
+        texts = [fg.render(f) for f in pool]
+        comps = [fg.composition(int_ast(f)) for f in pool]
+        want_idx = [{'(s)': 1, '(l)': 2, '(g)': 3}.get(f['suffix'], 0) for f in pool]
+        fns = real_fns()
+        names = []
+        for f, t in zip(pool, texts):                   # the names a formula must have (checked against the AST through the inverse maps)
+            nm = {}
+            for w in FORMATS:
+                o = call(fns[w], t)
+                if is_exc(o):
+                    return 'formula_to_%s(%r) raised %s' % (w, t, o[1])
+                if UN[w](o) != fg.render(canon_ast(f)):
+                    return 'undoing the %s presentation of %r (%r) gives %r' % (w, t, o, UN[w](o))
+                nm[w] = o
+            names.append(nm)
+        instances = []
+
+        def same_comp(got, want):
+            return set(got) == set(want) and all(close(got[k], v, 1e-12, 0.0) for k, v in want.items())
+
+        def check_fresh(after):
+            for i, t in enumerate(texts):
+                for Cls in (Substance, Species):
+                    a = call(Cls.from_formula, t)
+                    b = call(Cls.from_formula, t)
+                    for o in (a, b):
+                        if is_exc(o):
+                            return '%s: %s.from_formula(%r) raised %s' % (after, Cls.__name__, t, o[1])
+                        for w in FORMATS:
+                            if getattr(o, w + '_name') != names[i][w]:
+                                return '%s: fresh %s.from_formula(%r).%s_name = %r, expected %r' % (after, Cls.__name__, t, w, getattr(o, w + '_name'), names[i][w])
+                        if not same_comp(o.composition, comps[i]):
+                            return '%s: fresh %s.from_formula(%r).composition = %r, the written composition is %r' % (
+                                after, Cls.__name__, t, o.composition, {k: str(v) for k, v in comps[i].items()})
+                        if o.data != {}:
+                            return '%s: fresh %s.from_formula(%r).data = %r, expected {}' % (after, Cls.__name__, t, o.data)
+                        if Cls is Species and o.phase_idx != want_idx[i]:
+                            return '%s: fresh Species.from_formula(%r).phase_idx = %r, the suffix selects %r' % (after, t, o.phase_idx, want_idx[i])
+                    olds = [x for x in instances] + [a]
+                    for x in olds:
+                        if b.composition is x.composition or b.data is x.data:
+                            return '%s: a fresh %s.from_formula(%r) shares its %s dict with an earlier instance' % (
+                                after, Cls.__name__, t, 'composition' if b.composition is x.composition else 'data')
+            return None
+
+        r = check_fresh('before any step')
+        if r:
+            return r
+        for n, st in enumerate(c['steps']):
+            desc = 'after step %d %r' % (n, st)
+            if st['do'] == 'make':
+                Cls = Substance if st['cls'] == 'Substance' else Species
+                i = st['i']
+                kw = dict(st['kw'])
+                if 'data' in kw:
+                    kw['data'] = dict(kw['data'])
+                o = call(Cls.from_formula, texts[i], **kw)
+                if is_exc(o):
+                    return '%s: raised %s' % (desc, o[1])
+                want = dict(comps[i])
+                if 'charge' in kw:
+                    want[0] = kw['charge']
+                if not same_comp(o.composition, want):
+                    return '%s: composition = %r, expected %r' % (desc, o.composition, {k: str(v) for k, v in want.items()})
+                if o.data != kw.get('data', {}):
+                    return '%s: data = %r' % (desc, o.data)
+                instances.append(o)
+            elif instances:
+                o = instances[st['j'] % len(instances)]
+                if st['what'] == 'comp_set':
+                    o.composition[st['k']] = st['v']
+                elif st['what'] == 'comp_del':
+                    o.composition.pop(st['k'], None)
+                elif st['what'] == 'comp_clear':
+                    o.composition.clear()
+                else:
+                    o.data['edited'] = st['v']
+            r = check_fresh(desc)
+            if r:
+                return r
         return None
 
     def _oracle_ast(self, f):
@@ -462,7 +605,10 @@ class C13(Property):
 
         def side(d):
             return ' + '.join(('' if v == 1 else str(v) + ' ') + name(k) for k, v in d.items() if v != 0)
-        want = side(rxn.reac) + ' ' + ARROWS[(pr, c['eq'])] + ' ' + side(rxn.prod)
+        def group(d):
+            t = side(d)
+            return ' + ( ' + t + ')' if t else ''
+        want = side(rxn.reac) + group(rxn.inact_reac) + ' ' + ARROWS[(pr, c['eq'])] + ' ' + side(rxn.prod) + group(rxn.inact_prod)
         if out != want:
             return '%s print of reaction %r / %r is %r, expected %r' % (pr, list(rxn.reac.items()), list(rxn.prod.items()), out, want)
         return None
@@ -473,6 +619,8 @@ class C13(Property):
             f = c['ast']
             return 'ast:depth%d%s%s%s%s%s' % (fg.depth(f), ':dec' if fg.has_decimal(f) else '', ':chg' if f['charge'] else '',
                                              ':hyd' if len(f['parts']) > 1 else '', ':pre' if f['prefixes'] else '', ':sfx' if f['suffix'] else '')
+        if op == 'history':
+            return 'history:%dsteps' % len(c['steps'])
         if op == 'reaction':
             return 'reaction:%s:%s' % (c['printer'], 'eq' if c['eq'] else 'rxn')
         if op == 'species':
@@ -484,6 +632,20 @@ class C13(Property):
         return len(s) >= 2
 
     def shrink(self, case, still_fails):
+        if case.get('op') == 'history':
+            steps = list(case['steps'])
+            changed = True
+            while changed and len(steps) > 1:
+                changed = False
+                for i in range(len(steps)):
+                    c2 = dict(case, steps=steps[:i] + steps[i + 1:])
+                    try:
+                        if still_fails(c2):
+                            steps, changed = c2['steps'], True
+                            break
+                    except Exception:
+                        pass
+            return dict(case, steps=steps)
         if case.get('op') != 'ast':
             return case
         f = case['ast']
